@@ -174,6 +174,10 @@ func (c *Channel) Deliver(out, x []byte) ([]byte, error) {
 					c.lastReceived = now
 				}
 				appData = out
+				if appData == nil {
+					// an empty message is still application data
+					appData = []byte{}
+				}
 				return nil, nil
 			}
 			if len(out) == 0 {
